@@ -375,6 +375,18 @@ sqf::runtime::runtime::result sqf::runtime::runtime::execute(sqf::runtime::runti
                 for (size_t i = 0; i < m_contexts.size(); i++)
                 {
                     m_context_active = m_contexts[i];
+                    if (m_context_active->terminate())
+                    { // a terminated script ends the next time the scheduler gets to it
+                        m_contexts.erase(m_contexts.begin() + i);
+                        if (m_contexts.empty())
+                        {
+                            m_context_active = {};
+                            res = result::empty;
+                            goto start_loop_exit;
+                        }
+                        i--;
+                        continue;
+                    }
                     if (m_context_active->suspended())
                     {
                         if (m_context_active->wakeup_timestamp() <= std::chrono::system_clock::now())
